@@ -38,30 +38,50 @@ def lean_pairs(pairs):
     return '[' + ', '.join(f'({lean_str(a)}, {lean_str(b)})' for a, b in pairs) + ']'
 
 
+def _import_repo(repo, name):
+    """Import `bluebell.<name>` from the working tree at `repo` (this process imports bluebell from nowhere else)."""
+    import sys, importlib
+    if sys.path[0] != repo:
+        sys.path.insert(0, repo)
+    m = importlib.import_module('bluebell.' + name)
+    f = os.path.realpath(getattr(m, '__file__', ''))
+    if not f.startswith(os.path.realpath(repo) + os.sep):
+        raise TranslateError(f'bluebell.{name} was imported from {f}, not from {repo}')
+    return m
+
+
+_FLAG_NAMES = [(re.I, 're.I'), (re.M, 're.M'), (re.S, 're.S'), (re.X, 're.X'), (re.A, 're.A'), (re.L, 're.L')]
+
+
+def _compiled(p):
+    """(pattern, flags-as-written) of a compiled regular expression object; re.UNICODE is implicit for str patterns."""
+    if not isinstance(p, re.Pattern):
+        raise TranslateError(f'expected a compiled regular expression, got {type(p).__name__}')
+    return p.pattern, '|'.join(n for f, n in _FLAG_NAMES if p.flags & f)
+
+
 def parser_consts(repo, info):
-    mod = _module(os.path.join(repo, 'bluebell', 'parser.py'))
-    top = _assigns(mod.body)
-    cls = _classes(mod)
-    indent = ast.literal_eval(top['INDENT'])
-    dedent = ast.literal_eval(top['DEDENT'])
-    aliases = ast.literal_eval(top['ROOT_ALIASES'])
-    pa = _assigns(cls['Parser'].body)
-    pat, flags = _re_pattern(pa['NON_INLINE_START_RE'])
+    """Constants of parser.py, read from the imported module (so moving a constant, or building it differently,
+    is not a change; a different value is)."""
+    P = _import_repo(repo, 'parser')
+    indent, dedent, aliases = P.INDENT, P.DEDENT, dict(P.ROOT_ALIASES)
+    pat, flags = _compiled(P.Parser.NON_INLINE_START_RE)
     if flags:
         raise TranslateError(f'NON_INLINE_START_RE has flags {flags}')
     m = re.fullmatch(r'\[((?:[^\]\\]|\\.)*)\]\+', pat, re.S)
     if not m:
         raise TranslateError(f'NON_INLINE_START_RE {pat!r} is not of the form [class]+')
     oc = class_of_body(m.group(1))
-    ap = _assigns(cls['AkomaNtosoParser'].body)
-    indent_size = ast.literal_eval(ap['indent_size'])
-    line_re, line_flags = _re_pattern(ap['line_re'])
-    tw_re, tw_flags = _re_pattern(ap['trailing_ws_re'])
-    for name, v in (('indent', ap.get('indent')), ('dedent', ap.get('dedent'))):
-        if not (isinstance(v, ast.Name) and v.id == name.upper()):
-            raise TranslateError(f'AkomaNtosoParser.{name} is not {name.upper()}')
-    if len(indent) != 1 or len(dedent) != 1:
+    A = P.AkomaNtosoParser
+    indent_size = A.indent_size
+    line_re, line_flags = _compiled(A.line_re)
+    tw_re, tw_flags = _compiled(A.trailing_ws_re)
+    if A.indent != indent or A.dedent != dedent:
+        raise TranslateError('AkomaNtosoParser.indent/dedent are not INDENT/DEDENT')
+    if not (isinstance(indent, str) and isinstance(dedent, str) and len(indent) == 1 and len(dedent) == 1):
         raise TranslateError('INDENT/DEDENT are not single characters')
+    if not (isinstance(indent_size, int) and indent_size >= 1):
+        raise TranslateError(f'indent_size {indent_size!r} is not a positive integer')
     info['parser'] = {'indent': ord(indent), 'dedent': ord(dedent), 'indent_size': indent_size, 'aliases': aliases,
                       'override_class': oc, 'line_re': [line_re, line_flags], 'trailing_ws_re': [tw_re, tw_flags]}
     L = []
@@ -199,13 +219,12 @@ def _str_set(node):
 def xml_consts(repo, info):
     import re as _re
     import sys
-    mod = _module(os.path.join(repo, 'bluebell', 'xml.py'))
-    cls = _classes(mod)
-    ia = _assigns(cls['IdGenerator'].body)
-    lead = _class_shape(*_re_pattern(ia['leading_punct_re']), True, False)
-    trail = _class_shape(*_re_pattern(ia['trailing_punct_re']), False, True)
-    punct = _class_shape(*_re_pattern(ia['punct_re']), False, False)
-    wpat, wflags = _re_pattern(ia['whitespace_re'])
+    X = _import_repo(repo, 'xml')
+    G = X.IdGenerator
+    lead = _class_shape(*_compiled(G.leading_punct_re), True, False)
+    trail = _class_shape(*_compiled(G.trailing_punct_re), False, True)
+    punct = _class_shape(*_compiled(G.punct_re), False, False)
+    wpat, wflags = _compiled(G.whitespace_re)
     if wflags:
         raise TranslateError('whitespace_re has flags')
     wtree = [str(op) for op, _ in _re._parser.parse(wpat)]
@@ -213,10 +232,10 @@ def xml_consts(repo, info):
         raise TranslateError(f'whitespace_re {wpat!r} is not a single character class')
     wc = _re.compile(wpat)
     ws = [cp for cp in range(sys.maxunicode + 1) if wc.fullmatch(chr(cp))]
-    exempt = _str_set(ia['id_exempt'])
-    passthru = _str_set(ia['id_exempt_but_pass_to_children'])
-    numexp = _str_set(ia['num_expected'])
-    aliases = ast.literal_eval(ia['aliases'])
+    exempt = sorted(set(G.id_exempt))
+    passthru = sorted(set(G.id_exempt_but_pass_to_children))
+    numexp = sorted(set(G.num_expected))
+    aliases = dict(G.aliases)
     info['xml'] = {'id_exempt': exempt, 'pass_through': passthru, 'num_expected': numexp, 'aliases': aliases,
                    'lead': _ranges(lead), 'trail': _ranges(trail), 'punct': _ranges(punct), 'ws': _ranges(ws)}
     L = ['/-- `IdGenerator.id_exempt` -/',
